@@ -80,7 +80,9 @@ GPollAcks ==
 
 Guarded == GSend \/ GSendErr \/ GRecv \/ GSetBusy \/ GDeq \/ GAck \/ GEnq \/ GPollAcks
 Who == IF Ev.a = "Enq" THEN Peer(Ev.e) ELSE Ev.e
-PostOk == Proj(ep'[Who]) = Ev.post
+\* (SendErr is logged by the sending thread after send() raised, outside the socket lock: with several threads on
+\* one connection the projection it carries may already include a later step of another thread - not compared)
+PostOk == Ev.a = "SendErr" \/ Proj(ep'[Who]) = Ev.post
 
 InvNames == <<"Fifo", "Window", "RecvBound", "NoFrmr", "SeqOk", "NotBroken">>
 InvP(n) == CASE n = "Fifo" -> FifoP(accepted', delivered')
